@@ -79,7 +79,7 @@ func runMain() {
 	if o.Tier == "thorough" {
 		children = append(children, child{"kv", nil}, child{"index", []string{"-prop", "C13"}}, child{"req", []string{"-prop", "C04"}}, child{"query", nil})
 	} else {
-		children = append(children, child{"query", []string{"-race-subset"}})
+		children = append(children, child{"query", []string{"-race-subset"}}, child{"index", []string{"-race-subset"}})
 	}
 	goflags := os.Getenv("GOFLAGS") // the driver may point the build at a scratch copy through -modfile (VERIF_REPO)
 	if goflags == "" {
